@@ -677,6 +677,13 @@ func (g *graph) compile(ctx context.Context, opt *graphCompileOptions) (*composa
 		}
 	}
 
+	// Compile may be called more than once on the same graph (sub graphs, re-compilation): the
+	// converters added below must not pile up in handlers shared with earlier runnables.
+	handlerPreNode := make(map[string][]handlerPair, len(g.handlerPreNode))
+	for key, handlers := range g.handlerPreNode {
+		handlerPreNode[key] = append([]handlerPair(nil), handlers...)
+	}
+
 	for key := range g.fieldMappingRecords {
 		// not allowed to map multiple fields to the same field
 		toMap := make(map[string]bool)
@@ -688,7 +695,7 @@ func (g *graph) compile(ctx context.Context, opt *graphCompileOptions) (*composa
 		}
 
 		// add map to input converter
-		g.handlerPreNode[key] = append(g.handlerPreNode[key], g.getNodeGenericHelper(key).inputFieldMappingConverter)
+		handlerPreNode[key] = append(handlerPreNode[key], g.getNodeGenericHelper(key).inputFieldMappingConverter)
 	}
 
 	key2SubGraphs := g.beforeChildGraphsCompile(opt)
@@ -784,7 +791,7 @@ func (g *graph) compile(ctx context.Context, opt *graphCompileOptions) (*composa
 		genericHelper: g.genericHelper,
 
 		preBranchHandlerManager: &preBranchHandlerManager{h: g.handlerPreBranch},
-		preNodeHandlerManager:   &preNodeHandlerManager{h: g.handlerPreNode},
+		preNodeHandlerManager:   &preNodeHandlerManager{h: handlerPreNode},
 		edgeHandlerManager:      &edgeHandlerManager{h: g.handlerOnEdges},
 	}
 
